@@ -29,7 +29,8 @@ RULE = ("compounds: Hypothesis draws a flat {atom: count} dict (1-8 distinct ato
         "vector wavelength, or natural_density); distinct by (compound, density, wavelength) arguments. Each compound is "
         "then evaluated again with the same wavelength/energy object at a second density and, for lists/arrays, again "
         "after that object was overwritten in place with other generated wavelengths (every call judged by the "
-        "reference; arguments must not be modified by the library). "
+        "reference; arguments must not be modified by the library; arrays returned by earlier calls must stay as returned "
+        "and must not share memory with later results or the caller's arrays). "
         "sweeps: every atom with data x 6 wavelengths through atom.neutron.scattering/.sld and the one-atom "
         "compound; every tabulated atom at every node, every interval midpoint and beyond both ends; "
         "both given: for neutron_scattering and neutron_sld (whose docstrings say 'if energy is specified then wavelength "
@@ -107,8 +108,12 @@ def check_compound(ctx, v):
         ng.check_shape("c03:neutron_sld", o, s, shape, case)
     ng.compare_outputs("c03:neutron_sld", dict(zip(OUTPUTS[:3], sld)), comp, rho, lams, case,
                        "edep" if edep else "ordinary", outputs=OUTPUTS[:3], rel=rel)
+    keep = ng.Retained("c03", case, foreign=list(wkw.items()))
+    keep.add("neutron_scattering", [(o, got[o]) for o in OUTPUTS])
+    keep.add("neutron_sld", list(zip(OUTPUTS[:3], sld)))
     both_given(ctx, v, case, comp, edep)
-    repeat_calls(ctx, v, case, comp, shape, wkw, edep)
+    repeat_calls(ctx, v, case, comp, shape, wkw, edep, keep)
+    keep.verify("at the end of the sequence of calls")
 
 
 def both_given(ctx, v, case, comp, edep):
@@ -152,7 +157,7 @@ def both_given(ctx, v, case, comp, edep):
                        outputs=OUTPUTS[:3], rel=rel)
 
 
-def repeat_calls(ctx, v, case, comp, shape, wkw, edep):
+def repeat_calls(ctx, v, case, comp, shape, wkw, edep, keep=None):
     """The result of a call must not depend on the calls before it: the same compound and the SAME
     wavelength/energy object again at another density, then once more after the caller modified
     that list/array in place to other wavelengths.  Every call is judged by the reference."""
@@ -169,6 +174,8 @@ def repeat_calls(ctx, v, case, comp, shape, wkw, edep):
     ctx.count("repeat:" + ("vector" if shape != () else "scalar"))
     with unchanged("c03", case, compound=obj0 if isinstance(obj0, dict) else None, **wkw):
         got = ng.flatten(pt.neutron_scattering(obj0, density=rho2, **wkw))
+    if keep is not None:
+        keep.add("repeated call 1", [(o, got[o]) for o in OUTPUTS])
     for o in OUTPUTS:
         ng.check_shape("c03:repeat", o, got[o], shape, case)
     ng.compare_outputs("c03:repeat:other-density", got, comp, rho2, lams_now, case, tag, rel=rel)
@@ -185,6 +192,8 @@ def repeat_calls(ctx, v, case, comp, shape, wkw, edep):
     ctx.count("repeat:in-place-" + ("list" if isinstance(arg, list) else "array"))
     with unchanged("c03", case, **wkw):
         got = ng.flatten(pt.neutron_scattering(obj0, density=rho2, **wkw))
+    if keep is not None:
+        keep.add("repeated call 2", [(o, got[o]) for o in OUTPUTS])
     for o in OUTPUTS:
         ng.check_shape("c03:repeat", o, got[o], shape, case)
     ng.compare_outputs("c03:repeat:wavelengths-changed-in-place", got, comp, rho2, ref_l, case, tag)
